@@ -241,8 +241,8 @@ def generate(tier, rng):
     for k, (src, f) in enumerate(files):
         nbits = len(f) * 8
         if not quick:
-            # every bit of the six smallest files, 2500 sampled bits (plus header/trailer ends) of the others
-            positions = range(nbits) if k < 6 else sorted(set(rng.sample(range(nbits), min(nbits, 2500)) + list(range(0, 64)) + list(range(nbits - 64, nbits))))
+            # every bit of the six smallest files, 1000 sampled bits (plus header/trailer ends) of the others
+            positions = range(nbits) if k < 6 else sorted(set(rng.sample(range(nbits), min(nbits, 1000)) + list(range(0, 64)) + list(range(nbits - 64, nbits))))
         else:
             positions = sorted(set(rng.sample(range(nbits), 100) + list(range(0, 16)) + list(range(nbits - 34, nbits))))
         for pos in positions:
@@ -292,7 +292,7 @@ def generate(tier, rng):
                 b = with_crc(bytes(g))
                 yield case(sx(["any", q(b.hex())]), b.hex(), dict(stream="struct-header", field=fi))
         # mutate bytes in the sections after the header (type ids, lengths, opcodes, counts)
-        nrand = 50 if quick else 1500
+        nrand = 50 if quick else 600
         for t in range(nrand):
             g = bytearray(payload)
             pos = rng.randint(HSZ, len(g) - 1)
@@ -340,7 +340,7 @@ def generate(tier, rng):
         seen_f.add(f)
         payload = f[:-4]
         fields = section_fields(payload)
-        budget = 260 if quick else 1500
+        budget = 260 if quick else 800
         muts = [(o, w, name, v) for (o, w, name, vs) in fields for v in vs]
         if len(muts) > budget:
             muts = rng.sample(muts, budget)
